@@ -21,6 +21,7 @@ def members(rng, kw):
             A.PrefixedArray(A.Alias("Byte"), A.Alias("Int16ub")), A.Array(2, A.Alias("Byte")), A.Struct(A.Renamed("x", A.Alias("Byte")), A.Renamed("y", A.Bytes(1))),
             A.Padded(3, A.Alias("Byte")), A.Flag, A.ZigZag, A.PaddedString(A.T("_params", "k"), "ascii")]
     pool += [A.PrefixedArray(A.Alias("Byte"), A.VarInt), A.PrefixedArray(A.Alias("Int16ub"), A.CString("utf8"))]
+    pool += [A.Default(A.Alias("Int16ub"), 7), A.Optional(A.Alias("Byte")), A.Const(b"MZ"), A.Default(A.Alias("Byte"), 1)]
     n = rng.choice([1, 2, 3, 3, 4, 4, 5, 6])
     return [A.Renamed(nm, rng.choice(pool)) for nm in "abcdef"[:n]]
 
@@ -90,7 +91,9 @@ def run(ctx):
                  ("array", A.N("LazyArray", count=A.C(2), sub=A.PrefixedArray(A.Alias("Byte"), A.Prefixed(A.Alias("Byte"), A.GreedyBytes)))),
                  ("array", A.N("LazyArray", count=A.C(3), sub=A.PrefixedArray(A.Alias("Byte"), A.PrefixedArray(A.Alias("Byte"), A.Alias("Byte"))))),
                  ("thunk", A.N("Lazy", sub=A.Prefixed(A.Alias("Int16ub"), A.GreedyBytes, incl=True))),
-                 ("thunk", A.N("Lazy", sub=A.PrefixedArray(A.Alias("Byte"), A.Alias("Int16ub"))))]
+                 ("thunk", A.N("Lazy", sub=A.PrefixedArray(A.Alias("Byte"), A.Alias("Int16ub")))),
+                 ("thunk", A.N("Lazy", sub=A.Default(A.Alias("Int16ub"), 7))),
+                 ("thunk", A.N("Lazy", sub=A.Struct(A.Renamed("a", A.Default(A.Alias("Byte"), 1)), A.Renamed("b", A.Default(A.Alias("Byte"), 2)))))]
         for i in range(nprog + len(fixed)):
             kw = {"k": rng.choice([1, 2, 3])}
             mem = members(rng, kw)
@@ -177,7 +180,30 @@ def run(ctx):
                     camp.sh.session("C16.history", [ie], x=rec)
                     if h != sorted(h) or len(set(h)) != len(h):
                         nt += 1
-                # rebuild from the lazy result reproduces the bytes (canonical input)
+                # building from the lazy result (nothing touched, or everything) emits what building from the eager result emits
+                if data in datas[:3]:
+                    try:
+                        ve = V.dec(e["res"]["v"])
+                    except Exception:
+                        ve = None
+                    if ve is not None or e["res"]["v"].get("t") == "none":
+                        ibe, be = camp.build(eager, ec, ve, b"", kw, arg=e["res"]["v"])
+                        for touch in (False, True):
+                            stream = io.BytesIO(full); stream.seek(st)
+                            try:
+                                res = lc.parse_stream(stream, **kw)
+                            except Exception:
+                                continue        # (a lazy parse that declines is the history clause's business)
+                            try:
+                                if touch:
+                                    force(res)
+                                out = io.BytesIO()
+                                lc.build_stream(res, out, **kw)
+                                call = {"op": "build", "events": [], "res": {"ok": True, "v": V.VBytes(out.getvalue()), "err": "", "p": out.tell(), "path": []}}
+                            except Exception as ex:
+                                call = {"op": "build", "events": [], "res": {"ok": False, "v": V.VNone(), "err": type(ex).__name__, "p": 0, "path": []}}
+                            il = camp.sh.add({"k": "Opaque", "desc": "build from the lazy result"}, call, kw, b"", 0, None, None, "lazy-build")
+                            camp.sh.session("C16.eager-equal", [ibe, il], x={"lazy": lazy})
                 camp.sh.maybe_flush()
             # lazies embedded in a surrounding parse whose later members read them
             if kind in ("struct", "array") and mem:
